@@ -273,8 +273,10 @@ class CrawlRun(object):
         u = d['id'] if d is not None else 0
         self.pending.append((self.nreq, ep, u, host, port, path, kind))
         item = self.task_item.get(asyncio.current_task(), 0)
+        # rj: the URL requested matches the reject rule every scenario runs with (--reject-regex /rej/); recorded for the
+        # fetches made on behalf of robots.txt (its redirect targets are ordinary redirect targets as far as scope goes)
         self.log(e='req', n=self.nreq, u=u, kind=kind, host=host or '', h=self.hidx_of(host, port, path), port=port, path=path,
-                 conn_host=self.ip_host(ep.address[0]), item=item)
+                 conn_host=self.ip_host(ep.address[0]), item=item, rj=bool(kind == 'robots' and '/rej/' in path))
 
     def hidx_of(self, host, port, path):
         """Origin index an exchange is accounted to: for a robots.txt fetch the origin whose control file it is (which
